@@ -1,7 +1,7 @@
 (* P_C07 — Comparison operators form one documented strict total order. *)
 From mathcomp Require Import all_ssreflect all_algebra.
 From SsrMultinomials Require Import mpoly.
-From NP Require Import Base Poly Order Compare OrderP CompareP Abs Align Arith CompareTop GenCompare BridgeCompare.
+From NP Require Import Base Poly Order Compare OrderP CompareP Abs Align Arith CompareTop PolyOrder CompareSem GenCompare BridgeCompare.
 Set Implicit Arguments. Unset Strict Implicit. Unset Printing Implicit Defensive.
 Import GRing.Theory Num.Theory.
 Local Open Scope ring_scope.
@@ -63,6 +63,57 @@ Theorem C07_first_difference_decides i :
   exists p, [/\ (p < size (va i))%N, take p (va i) = take p (vb i) & nth 0 (va i) p < nth 0 (vb i) p].
 Proof. by apply: lexlt_char; rewrite /va /vb /vec !size_map. Qed.
 
+(* 5b. THE ORDER IN TERMS OF THE POLYNOMIALS THEMSELVES.  plt ns g r A B (Proofs/PolyOrder.v) says: there is a
+       monomial m at which A's coefficient is smaller than B's, and A and B have the same coefficient at every
+       monomial that comes later than m in the configured monomial order (graded / reverse-lexicographic as the
+       sort options say, on the exponents of the names ns).  `less` computes exactly that relation on the
+       denoted polynomials, `greater` its converse; nothing in it depends on which monomials are stored, on
+       their stored order, or on zero-padding added by alignment. *)
+Theorem C07_less_is_polynomial_order i :
+  rows a' = rows b' -> names a' = names b' -> all (fun v => v < n)%N (names a') -> (i < psize a')%N ->
+  (verdict gen_less i <-> plt (names a') (o_sgraded o) (o_sreverse o) (absE n a' i) (absE n b' i)) /\
+  (verdict gen_greater i <-> plt (names a') (o_sgraded o) (o_sreverse o) (absE n b' i) (absE n a' i)).
+Proof.
+move=> rr nn ltn lt; have [-> -> _ _ _] := C07_verdicts lt; split.
+  exact: (lt_polynomial o wa wb rr nn ltn i).
+have ltn' : all (fun v => v < n)%N (names b') by rewrite -nn.
+have := lt_polynomial o wb wa (esym rr) (esym nn) ltn' i.
+by rewrite -nn /vb /va /order /sort_order rr.
+Qed.
+
+Theorem C07_plt_unfolded ns g r (A B : {mpoly R[n]}) :
+  plt ns g r A B <->
+  exists m : 'X_{1..n}, A@_m < B@_m /\
+    forall m' : 'X_{1..n}, mleq g r (rowof ns m) (rowof ns m') && (rowof ns m != rowof ns m') -> A@_m' = B@_m'.
+Proof. by []. Qed.
+
+(* the denoted polynomials only involve the array's own indeterminants ... *)
+Theorem C07_operands_in_their_names i :
+  rows a' = rows b' -> names a' = names b' -> all (fun v => v < n)%N (names a') ->
+  psupp (names a') (absE n a' i) /\ psupp (names a') (absE n b' i).
+Proof. by move=> rr nn ltn; split; [apply: absE_psupp_a | apply: absE_psupp_b]. Qed.
+
+(* the same, on the stored exponent rows: the deciding row and every later stored row *)
+Theorem C07_less_on_stored_monomials i :
+  rows a' = rows b' -> names a' = names b' -> all (fun v => v < n)%N (names a') -> (i < psize a')%N ->
+  verdict gen_less i <->
+  exists k, [/\ (k < size (rows a'))%N,
+      (absE n a' i)@_(mon n (names a') (nth [::] (rows a') k)) < (absE n b' i)@_(mon n (names a') (nth [::] (rows a') k)) &
+      forall k', (k' < size (rows a'))%N ->
+         mleq (o_sgraded o) (o_sreverse o) (nth [::] (rows a') k) (nth [::] (rows a') k')
+           && (nth [::] (rows a') k != nth [::] (rows a') k') ->
+         (absE n a' i)@_(mon n (names a') (nth [::] (rows a') k')) = (absE n b' i)@_(mon n (names a') (nth [::] (rows a') k'))].
+Proof.
+move=> rr nn ltn lt; have [-> _ _ _ _] := C07_verdicts lt.
+exact: (lt_semantic o wa wb rr nn ltn i).
+Qed.
+
+(* each stored coefficient is the coefficient of the denoted polynomial at that row's monomial *)
+Theorem C07_coefficient_readout i k :
+  all (fun v => v < n)%N (names a') -> (k < size (rows a'))%N ->
+  (absE n a' i)@_(mon n (names a') (nth [::] (rows a') k)) = cell (cols a') k i.
+Proof. by move=> ltn lk; apply: coeff_readout. Qed.
+
 (* 6. == only for identical polynomials *)
 Theorem C07_equal_identical i :
   rows a' = rows b' -> names a' = names b' -> veq i -> absE n a' i = absE n b' i.
@@ -107,7 +158,39 @@ Proof. exact: lexlt_trans. Qed.
 Theorem C07_asymmetric (u w : seq R) : lexlt u w -> ~~ lexlt w u.
 Proof. exact: lexlt_asym. Qed.
 
+(* 7b. ... and on such polynomials plt IS a strict total order: irreflexive, transitive, total - whatever
+       alignment (stored monomials, padding) each individual comparison used - and adding further indeterminant
+       names (a three-way alignment, a broadcast against an operand with more names) does not change it. *)
+Theorem C07_polynomial_order_irreflexive ns g r (A : {mpoly R[n]}) : ~ plt ns g r A A.
+Proof. exact: plt_irrefl. Qed.
+
+Theorem C07_polynomial_order_transitive ns g r (A B C : {mpoly R[n]}) :
+  psupp ns A -> psupp ns B -> psupp ns C -> plt ns g r A B -> plt ns g r B C -> plt ns g r A C.
+Proof. exact: plt_trans. Qed.
+
+Theorem C07_polynomial_order_total ns g r (A B : {mpoly R[n]}) :
+  psupp ns A -> psupp ns B -> A != B -> plt ns g r A B \/ plt ns g r B A.
+Proof. exact: plt_total. Qed.
+
+Theorem C07_polynomial_order_asymmetric ns g r (A B : {mpoly R[n]}) :
+  psupp ns A -> psupp ns B -> plt ns g r A B -> ~ plt ns g r B A.
+Proof. exact: plt_asym. Qed.
+
+Theorem C07_polynomial_order_more_names ns ns' g r (A B : {mpoly R[n]}) :
+  uniq ns' -> subseq ns ns' -> psupp ns A -> psupp ns B -> plt ns g r A B <-> plt ns' g r A B.
+Proof. exact: plt_widen. Qed.
+
 End C07.
+
+(* non-vacuity: 0 < x0 in this order (one indeterminant, graded reverse lexicographic) *)
+Example C07_polynomial_order_example (R : realDomainType) :
+  plt [:: 0%N] true true (0 : {mpoly R[1]}) 'X_ord0 /\ psupp [:: 0%N] ('X_ord0 : {mpoly R[1]}).
+Proof.
+split; last first.
+  move=> m /forallPn [w]; rewrite negb_or inE => /andP[]; case: w => -[|w] // lw.
+exists U_(ord0)%MM; rewrite mcoeff0 mcoeffX eqxx ltr01; split=> // m' /andP[_ ne].
+by rewrite mcoeff0 mcoeffX; case: (U_(ord0)%MM =P m') ne => [<-|_ _ //]; rewrite eqxx.
+Qed.
 
 Print Assumptions C07_alignment_faithful.
 Print Assumptions C07_verdicts.
@@ -115,6 +198,17 @@ Print Assumptions C07_trichotomy.
 Print Assumptions C07_complements.
 Print Assumptions C07_descending.
 Print Assumptions C07_first_difference_decides.
+Print Assumptions C07_less_is_polynomial_order.
+Print Assumptions C07_plt_unfolded.
+Print Assumptions C07_operands_in_their_names.
+Print Assumptions C07_polynomial_order_irreflexive.
+Print Assumptions C07_polynomial_order_transitive.
+Print Assumptions C07_polynomial_order_total.
+Print Assumptions C07_polynomial_order_asymmetric.
+Print Assumptions C07_polynomial_order_more_names.
+Print Assumptions C07_polynomial_order_example.
+Print Assumptions C07_less_on_stored_monomials.
+Print Assumptions C07_coefficient_readout.
 Print Assumptions C07_equal_identical.
 Print Assumptions C07_maximum.
 Print Assumptions C07_minimum.
